@@ -100,7 +100,7 @@ Fixpoint all_classes (fuel : nat) (c : cdef) (lex : path) (S : scope) : list ent
   end.
 
 Definition class_scope (fuel : nat) (c : cdef) (lex : path) (S : scope) : scope :=
-  mkFrame (Some (c_name c)) false (all_classes fuel c lex S) :: S.
+  mkFrame (Some (c_name c)) false (all_classes fuel c lex S) None :: S.
 
 (* an elementary type: a built-in, or a `type` class extending one; the modifiers of the type
    definitions come with it, outermost definition first.  Some None = a structured class. *)
